@@ -84,6 +84,7 @@ type PkgSpec struct {
 	Funcs   map[string]*FuncSpec // by Key
 	Ifaces  map[string]*FuncSpec // "Iface.Method"
 	Externs map[string]*FuncSpec // "pkgpath.Func" or "pkgpath.Type.Method"
+	Ghosts  map[string]string    // ghost field name ("$x") -> Go type text
 	Files   []string
 }
 
@@ -117,7 +118,7 @@ func parseContractFile(path string, pkgPath string, ps *PkgSpec) error {
 		lines = append(lines, rawLine{t, path, i + 1})
 	}
 	// merge continuation lines
-	kw := regexp.MustCompile(`^(func|iface|extern|global|pred|arith|requires|ensures|assigns|decreases|loop|let|trusted|inline|pure|props|hint|assert|params|results)\b`)
+	kw := regexp.MustCompile(`^(func|iface|extern|global|ghost|pred|arith|requires|ensures|assigns|decreases|loop|let|trusted|inline|pure|props|hint|assert|params|results)\b`)
 	var merged []rawLine
 	for _, l := range lines {
 		if !kw.MatchString(l.text) && len(merged) > 0 {
@@ -171,6 +172,13 @@ func parseContractFile(path string, pkgPath string, ps *PkgSpec) error {
 				return fail(l, "%v", err)
 			}
 			ps.Globals = append(ps.Globals, &Clause{Kind: "global", E: e, Text: rest, File: filepath.Base(l.file), Line: l.line})
+			cur = nil
+		case "ghost":
+			f := strings.Fields(rest)
+			if len(f) != 2 || !strings.HasPrefix(f[0], "$") {
+				return fail(l, "ghost $name type")
+			}
+			ps.Ghosts[f[0]] = f[1]
 			cur = nil
 		case "pred":
 			// pred name(a T, b U) = expr
@@ -272,6 +280,19 @@ func parseContractFile(path string, pkgPath string, ps *PkgSpec) error {
 				if m == nil {
 					return fail(l, "unrecognised clause %q", l.text)
 				}
+				if m[1] == "assigns" {
+					cur.HasAssign = true
+					for _, piece := range splitTopLevel(m[3]) {
+						c, err := mkClause(l, "assigns", m[2], piece)
+						if err != nil {
+							return err
+						}
+						if c.E != nil {
+							cur.Assigns = append(cur.Assigns, c)
+						}
+					}
+					continue
+				}
 				c, err := mkClause(l, m[1], m[2], m[3])
 				if err != nil {
 					return err
@@ -303,7 +324,7 @@ func parseContractFile(path string, pkgPath string, ps *PkgSpec) error {
 }
 
 func newPkgSpec(path string) *PkgSpec {
-	return &PkgSpec{Path: path, Preds: map[string]*Pred{}, Funcs: map[string]*FuncSpec{}, Ifaces: map[string]*FuncSpec{}, Externs: map[string]*FuncSpec{}}
+	return &PkgSpec{Path: path, Preds: map[string]*Pred{}, Funcs: map[string]*FuncSpec{}, Ifaces: map[string]*FuncSpec{}, Externs: map[string]*FuncSpec{}, Ghosts: map[string]string{}}
 }
 
 func (ps *PkgSpec) sortedFuncKeys() []string {
